@@ -111,9 +111,11 @@ def setup(ctx):
 
 
 # -- generators -----------------------------------------------------------------------------
-def gen_grid(rng):
+def gen_grid(rng, ctx=None):
     n = int(rng.choice([3, 4, 5, 6, 8, 12, 20, 50, 128, 400]))
-    if rng.random() < 0.02:
+    if bool(rng.random() < 0.02) or (ctx is not None and gen.every_nth(ctx, 0.02)):
+        if ctx is not None:
+            ctx.count("large_size_cases")
         n = int(rng.choice([1100, 2100, 4200]))          # un-resampled FFT grids: thousands of samples
     kind = str(rng.choice(["linear", "log", "irregular", "integer"]))
     if kind == "linear":
@@ -236,7 +238,7 @@ def nontrivial_sig(ctx, kind, gkind, ccls, n, hist):
 # -- families -------------------------------------------------------------------------------
 def fam_curve(ctx, rng):
     import hvsrpy
-    f, gk = gen_grid(rng)
+    f, gk = gen_grid(rng, ctx)
     y, cc = gen_curve(rng, f)
     diffuse = rng.random() < 0.3
     cls = hvsrpy.HvsrDiffuseField if diffuse else hvsrpy.HvsrCurve
@@ -325,7 +327,7 @@ def _mean_peak_check_inner(ctx, obj, label, f, search_range, dists=("lognormal",
 
 def fam_traditional(ctx, rng):
     import hvsrpy
-    f, gk = gen_grid(rng)
+    f, gk = gen_grid(rng, ctx)
     m = int(rng.integers(1, 12))
     ccs = [gen_curve(rng, f) for _ in range(m)]
     amp = np.vstack([np.maximum(c[0], 0) + (1e-3 if rng.random() < 0.5 else 0) for c in ccs])
@@ -363,7 +365,7 @@ def fam_traditional(ctx, rng):
 
 def fam_azimuthal(ctx, rng):
     import hvsrpy
-    f, gk = gen_grid(rng)
+    f, gk = gen_grid(rng, ctx)
     naz = int(rng.integers(1, 5))
     hv = []
     classes = []
